@@ -138,6 +138,8 @@ type Exec struct {
 	stale   []string
 	axioms  []string
 	endReached bool
+	symConst   map[types.Object]string // named constants treated as symbolic (>= 1): object -> SMT constant
+	symByVal   map[int64]string        // value -> SMT constant, for array types whose length is such a constant
 	synth      map[string]*types.Var
 	ghostVals  map[string]Term
 	paramObjs  []*types.Var
